@@ -550,6 +550,86 @@ pub fn check_devices(c: &DevCase, rec: &mut Rec) -> Result<(), String> {
     Ok(())
 }
 
+#[derive(Clone, Debug, Serialize, Deserialize)]
+pub struct EnvCase {
+    pub st: State,
+    pub enc: Enc,
+    /// envelope period (R11/R12) and a one-shot shape: the level runs to zero and stays there
+    pub ep: u16,
+    pub shape: u8,
+}
+
+/// "Audible AY state ... independent of what the machine was doing before": the file's R13 starts
+/// its envelope when the file is loaded — also in a machine whose AY registers already hold
+/// exactly the file's values because the same file was loaded earlier and its one-shot envelope
+/// has long run out. Compared with a fresh receiver by the peak level of the frames after the load.
+pub fn check_envelope_restart(c: &EnvCase, rec: &mut Rec) -> Result<(), String> {
+    let mut st = c.st.clone();
+    st.halted = false;
+    st.regs.iff1 = false;
+    st.regs.iff2 = false;
+    let ep = c.ep.clamp(150, 1500);
+    let shapes = [0x00u8, 0x01, 0x03, 0x04, 0x07, 0x09, 0x0F];
+    let shape = shapes[c.shape as usize % shapes.len()];
+    let mut regs = [0u8; 16];
+    regs[7] = 0x3F;
+    regs[8] = 0x10;
+    regs[9] = 0x10;
+    regs[10] = 0x10;
+    regs[11] = ep as u8;
+    regs[12] = (ep >> 8) as u8;
+    regs[13] = shape;
+    st.ay = Some((13, regs));
+    let file = encode_with_idle(&st, c.enc);
+    let burst = |e: &mut Emu| -> Result<f32, String> {
+        while e.next_audio_sample().is_some() {}
+        let mut peak = 0f32;
+        for _ in 0..6 {
+            mach::run_frames(e, 1)?;
+            while let Some(s) = e.next_audio_sample() {
+                peak = peak.max(s.left.abs()).max(s.right.abs());
+            }
+        }
+        Ok(peak)
+    };
+    // receiver A: fresh
+    let mut a = prepare_receiver(st.machine, Receiver::Fresh, true)?;
+    load(&mut a, c.enc, file.clone()).map_err(|x| format!("well-formed {:?} file rejected: {}", c.enc, x))?;
+    let peak_a = burst(&mut a)?;
+    rec.eval();
+    if peak_a < 1e-3 {
+        return Err(format!("fresh receiver: the file sets all channels to envelope mode with one-shot shape {:#04x}, period {}; no sound in the 6 frames after loading (peak {})", shape, ep, peak_a));
+    }
+    // receiver B: the same file loaded before, envelope run out (one-shot: 256*EP/f_clk <= 0.22 s)
+    let mut b = prepare_receiver(st.machine, Receiver::Fresh, true)?;
+    load(&mut b, c.enc, file.clone()).map_err(|x| format!("well-formed {:?} file rejected: {}", c.enc, x))?;
+    for _ in 0..40 {
+        mach::run_frames(&mut b, 1)?;
+        while b.next_audio_sample().is_some() {}
+    }
+    let mut tail = 0f32;
+    mach::run_frames(&mut b, 1)?;
+    while let Some(s) = b.next_audio_sample() {
+        tail = tail.max(s.left.abs()).max(s.right.abs());
+    }
+    if tail > peak_a * 0.05 {
+        rec.class("envelope-restart:not-settled(not-judged)");
+        return Ok(());
+    }
+    load(&mut b, c.enc, file).map_err(|x| format!("second load of the same file rejected: {}", x))?;
+    let peak_b = burst(&mut b)?;
+    rec.eval();
+    if peak_b < peak_a * 0.5 {
+        return Err(format!(
+            "{:?} file with all AY channels on a one-shot envelope (shape {:#04x}, period {}): loaded into a fresh machine the 6 frames after the load peak at {:.4}; loaded into a machine that had loaded the same file 41 frames earlier (envelope run out, silent) they peak at {:.4} — the file's envelope did not start",
+            c.enc, shape, ep, peak_a, peak_b
+        ));
+    }
+    rec.class("envelope-restarts-on-a-second-load-of-the-same-file");
+    rec.nontrivial(fnv(format!("{:?}", c).as_bytes()));
+    Ok(())
+}
+
 fn encode_with_idle(st: &State, enc: Enc) -> Vec<u8> {
     encode_with_idle_flags(st, enc, 2)
 }
@@ -896,6 +976,15 @@ pub fn run(run: &mut Run) {
         check_devices,
     );
     run.explore(
+        "ay-envelope-restarts-on-load",
+        t.pick(120, 4_000),
+        || {
+            (state_strategy(), prop_oneof![Just(Enc::SzxStored), Just(Enc::SzxZlib), Just(Enc::SzxFancy)], 150u16..1500, any::<u8>())
+                .prop_map(|(st, enc, ep, shape)| EnvCase { st, enc, ep, shape })
+        },
+        check_envelope_restart,
+    );
+    run.explore(
         "encodings-equivalent",
         t.pick(500, 20_000),
         || (state_strategy(), 0u8..4, any::<u64>(), receiver_strategy()).prop_map(|(st, frames, layout_seed, dirty)| EqCase { st, frames, layout_seed, dirty }),
@@ -922,6 +1011,7 @@ pub fn replay(run: &mut Run, phase: &str, case: &serde_json::Value) -> Result<()
     match phase {
         "load-direct-and-behaviour" => run.replay_one::<Case, _>(phase, case, check),
         "devices-ay-mouse" => run.replay_one::<DevCase, _>(phase, case, check_devices),
+        "ay-envelope-restarts-on-load" => run.replay_one::<EnvCase, _>(phase, case, check_envelope_restart),
         "encodings-equivalent" => run.replay_one::<EqCase, _>(phase, case, check_equiv),
         "model-mismatch" => run.replay_one::<MismatchCase, _>(phase, case, check_mismatch),
         "scr" => run.replay_one::<ScrCase, _>(phase, case, check_scr),
@@ -931,7 +1021,7 @@ pub fn replay(run: &mut Run, phase: &str, case: &serde_json::Value) -> Result<()
 }
 
 pub const LEVEL: &str = "exploration";
-pub const RULE: &str = "abstract machine states (registers, IFF1/IFF2, IM, HALTED, EILAST, MEMPTR, frame cycle counter, border, 128K latch incl. lock and shadow screen, RAM pattern + sparse edits, AY registers + selected register, mouse presence) are encoded by the harness' own writers as SNA, SZX with stored pages, SZX with zlib pages, and 'fancy' SZX (permuted chunk order, unknown and zero-length chunks, lower-case ids, mixed compression, reversed page order) and loaded into receivers in prior states {fresh, dirty after a scrambling program, halted, mid FD-chain, paging locked, EI pending}. Phases: (1) direct comparison of registers, every RAM page, CPU view, latch+lock, border, frame clock, MEMPTR, then 12 instructions in lock-step with the reference machine started from the described state (EILAST / interrupt arrival), or for HALTED: PC never leaves the HALT; (2) AY read-back through the ports and the audible tone (zero-crossing frequency of the 12 frames after loading), mouse presence; (3) the four encodings of one state, loaded into fresh and dirty receivers and run for 1..4 frames, must give identical state hashes; (4) 48K file into 128K machine and vice versa: Err, or Ok with the CPU seeing exactly the file's RAM, never a panic; (5) SCR. non-trivial = file using a compressed page, permuted order, unknown chunk, HALTED, EILAST, lock bit, shadow screen or a non-fresh receiver; distinct = hash of the case";
+pub const RULE: &str = "abstract machine states (registers, IFF1/IFF2, IM, HALTED, EILAST, MEMPTR, frame cycle counter, border, 128K latch incl. lock and shadow screen, RAM pattern + sparse edits, AY registers + selected register, mouse presence) are encoded by the harness' own writers as SNA, SZX with stored pages, SZX with zlib pages, and 'fancy' SZX (permuted chunk order, unknown and zero-length chunks, lower-case ids, mixed compression, reversed page order) and loaded into receivers in prior states {fresh, dirty after a scrambling program, halted, mid FD-chain, paging locked, EI pending}. Phases: (1) direct comparison of registers, every RAM page, CPU view, latch+lock, border, frame clock, MEMPTR, then 12 instructions in lock-step with the reference machine started from the described state (EILAST / interrupt arrival), or for HALTED: PC never leaves the HALT; (2) AY read-back through the ports and the audible tone (zero-crossing frequency of the 12 frames after loading), mouse presence; (3) the four encodings of one state, loaded into fresh and dirty receivers and run for 1..4 frames, must give identical state hashes; (4) 48K file into 128K machine and vice versa: Err, or Ok with the CPU seeing exactly the file's RAM, never a panic; (5) SCR. non-trivial = file using a compressed page, permuted order, unknown chunk, HALTED, EILAST, lock bit, shadow screen or a non-fresh receiver; distinct = hash of the case ay-envelope-restarts-on-load: a SZX that puts all AY channels on a one-shot envelope is loaded into a fresh machine and into a machine that loaded the same file 41 frames earlier (envelope run out, silent): the peak level of the six frames after the load must be comparable (>= 50 %) — the file's R13 starts its envelope whatever the receiver held.";
 pub const ASSUMPTIONS: &[&str] = &[
     "only files a conforming reader must accept are generated (malformed input is C15's domain): IM 0..2, border 0..7 with chFe low bits equal to it, cycle counter below the frame length, 16384-byte pages valid for the model, one Z80R and one SPCR chunk, HALTED and EILAST never both set",
     "HALTED + PC is judged convention-independently (HALT bytes on both candidate addresses); chKeyboardJoystick is not judged",
